@@ -10,12 +10,25 @@ use serde::{Deserialize, Serialize};
 
 use crate::{model::ValueTag, FromPrimitive as _};
 
+fn short_value(tag: u8, len: usize) -> io::Error {
+    io::Error::new(
+        io::ErrorKind::InvalidData,
+        format!("value of {len} bytes is too short for tag {tag:#04x}"),
+    )
+}
+
 #[inline]
-fn get_len_string(data: &mut Bytes) -> String {
+fn get_len_string(tag: u8, data: &mut Bytes) -> io::Result<String> {
+    if data.remaining() < 2 {
+        return Err(short_value(tag, data.remaining()));
+    }
     let len = data.get_u16() as usize;
+    if data.remaining() < len {
+        return Err(short_value(tag, data.remaining()));
+    }
     let s = String::from_utf8_lossy(&data[0..len]).into_owned();
     data.advance(len);
-    s
+    Ok(s)
 }
 
 /// IPP attribute values as defined in [RFC 8010](https://tools.ietf.org/html/rfc8010)
@@ -111,6 +124,19 @@ impl IppValue {
             }
         };
 
+        // fixed-width syntaxes: reject a value that is too short instead of reading past its end
+        let min_len = match ipp_tag {
+            ValueTag::Integer | ValueTag::Enum => 4,
+            ValueTag::Boolean => 1,
+            ValueTag::RangeOfInteger => 8,
+            ValueTag::DateTime => 11,
+            ValueTag::Resolution => 9,
+            _ => 0,
+        };
+        if data.len() < min_len {
+            return Err(short_value(value_tag, data.len()));
+        }
+
         let value = match ipp_tag {
             ValueTag::Integer => IppValue::Integer(data.get_i32()),
             ValueTag::Enum => IppValue::Enum(data.get_i32()),
@@ -118,12 +144,12 @@ impl IppValue {
             ValueTag::TextWithoutLanguage => IppValue::TextWithoutLanguage(String::from_utf8_lossy(&data).into_owned()),
             ValueTag::NameWithoutLanguage => IppValue::NameWithoutLanguage(String::from_utf8_lossy(&data).into_owned()),
             ValueTag::TextWithLanguage => IppValue::TextWithLanguage {
-                language: get_len_string(&mut data),
-                text: get_len_string(&mut data),
+                language: get_len_string(value_tag, &mut data)?,
+                text: get_len_string(value_tag, &mut data)?,
             },
             ValueTag::NameWithLanguage => IppValue::NameWithLanguage {
-                language: get_len_string(&mut data),
-                name: get_len_string(&mut data),
+                language: get_len_string(value_tag, &mut data)?,
+                name: get_len_string(value_tag, &mut data)?,
             },
             ValueTag::Charset => IppValue::Charset(String::from_utf8_lossy(&data).into_owned()),
             ValueTag::NaturalLanguage => IppValue::NaturalLanguage(String::from_utf8_lossy(&data).into_owned()),
